@@ -112,6 +112,9 @@ func (dg *DefaultGrouper) CalcPodGroupAnnotations(topOwner *unstructured.Unstruc
 	}
 
 	maps.Copy(pgAnnotations, topOwner.GetAnnotations())
+	// When the pod itself acts as the top owner, the pod-group-name annotation this controller writes on
+	// it must not be inherited: it would change the PodGroup on the reconcile after the one that created it.
+	delete(pgAnnotations, commonconsts.PodGroupAnnotationForPod)
 
 	return pgAnnotations
 }
